@@ -164,6 +164,9 @@ func (b *binding) emitGetP() {
 func (b *binding) emitSet() {
 	if b.isConst {
 		if b.isStrict || b.scope.c.scope.strict {
+			// an assignment to a constant that is still in its temporal dead zone is a
+			// ReferenceError, not a TypeError: check the TDZ first
+			b.emitGetP()
 			b.scope.c.emit(throwAssignToConst)
 		}
 		return
@@ -179,6 +182,7 @@ func (b *binding) emitSet() {
 func (b *binding) emitSetP() {
 	if b.isConst {
 		if b.isStrict || b.scope.c.scope.strict {
+			b.emitGetP() // TDZ first, see emitSet
 			b.scope.c.emit(throwAssignToConst)
 		} else {
 			// the assignment is silently ignored, but the value must still be discarded
